@@ -9,10 +9,10 @@ VERIF = os.path.dirname(os.path.dirname(os.path.abspath(__file__)))
 sys.path.insert(0, os.path.join(VERIF, "lib"))
 import kani_engine as K
 
-try:
-    import mir_engine as M
-except Exception:
-    M = None
+# No fallback: a manifest generated without the M obligations silently drops claims (seen when the
+# script was started with the system python instead of python3-vt).
+import jsonschema
+import mir_engine as M
 
 # per property: (design section, what the claim is, what is assumed)
 TEXT = {
@@ -118,10 +118,9 @@ def main():
         "not_applicable": na,
         "notes": "One driver: ./check <Cxx> --tier quick|thorough. Exit 0 held / 1 violation (replayed natively) / 2 inconclusive. Known findings: /verif/known_findings.json.",
     }
+    jsonschema.validate(man, json.load(open("/root/.vp/MANIFEST.schema.json")))
     with open(os.path.join(VERIF, "MANIFEST.json"), "w") as f:
         json.dump(man, f, indent=1)
-    import jsonschema
-    jsonschema.validate(man, json.load(open("/root/.vp/MANIFEST.schema.json")))
     print("MANIFEST.json:", len(checks), "claimed,", len(na), "not claimed")
 
 
